@@ -12,6 +12,7 @@ import (
 	"encoding/json"
 	"fmt"
 	"runtime"
+	"strconv"
 	"strings"
 	"sync"
 	"sync/atomic"
@@ -30,7 +31,9 @@ type Op struct {
 }
 
 type Case struct {
-	Kind   string `json:"kind"` // atomic | casprobe | pool
+	Kind   string `json:"kind"`             // atomic | casprobe | pool | poolbulk
+	T      string `json:"t,omitempty"`      // atomic, casprobe: the instantiation AtomicValue[T]: "" = int, "string", "struct"
+	Single bool   `json:"single,omitempty"` // atomic: the program has one possible outcome (small CAS probe); the model must agree on every schedule
 	Progs  [][]Op `json:"progs,omitempty"`
 	New    bool   `json:"new,omitempty"`    // pool: New hook set
 	X      int    `json:"x,omitempty"`      // casprobe: the stored value
@@ -196,8 +199,17 @@ func run(c *core.Ctx) {
 			}
 		}
 	}
+	// the same small sequential histories on AtomicValue[string] and AtomicValue[struct] (Go oracle only)
+	for _, T := range []string{"string", "struct"} {
+		for _, a := range small {
+			exec(c, Case{Kind: "atomic", T: T, Progs: [][]Op{{a}}})
+			for _, b := range small {
+				exec(c, Case{Kind: "atomic", T: T, Progs: [][]Op{{a, b}}})
+			}
+		}
+	}
 	c.Exhaustive = true
-	c.Note("exhaustive: every sequential AtomicValue history of <= 2 (quick) / 3 calls over Load, Store/Swap/CompareAndSwap with values {0,1,300}; plus random sequential, concurrent stress, CAS probe and Pool scenarios")
+	c.Note("exhaustive (this scope only): every SEQUENTIAL AtomicValue history of <= 2 (quick) / 3 calls over Load, Store/Swap/CompareAndSwap with values {0,1,300} (int; <= 2 calls also for string and struct); everything else is sampled: random sequential, concurrent stress, CAS probes and Pool scenarios")
 	// random sequential histories
 	for i := c.N(300, 5000, 3000); i > 0; i-- {
 		exec(c, Case{Kind: "atomic", Progs: progs(c.Rng, 1, 12, randAtomOp)})
@@ -214,10 +226,49 @@ func run(c *core.Ctx) {
 		}
 		exec(c, Case{Kind: "atomic", Progs: progs(c.Rng, n, ops, gen), Jitter: c.Rng.Uint64()})
 	}
+	// the same on AtomicValue[string] and AtomicValue[struct{int64; string}] (multi-word T; Go oracles only)
+	for _, T := range []string{"string", "struct"} {
+		for i := c.N(60, 1000, 600); i > 0; i-- {
+			exec(c, Case{Kind: "atomic", T: T, Progs: progs(c.Rng, 1, 12, randAtomOp)})
+		}
+		for i := c.N(300, 7000, 4000); i > 0; i-- {
+			n, ops := 2+c.Rng.Intn(2), 3
+			if c.Rng.Chance(40) {
+				n, ops = 2+c.Rng.Intn(7), 7
+			}
+			gen := randAtomOp
+			if c.Rng.Bool() {
+				gen = randAtomOp2
+			}
+			exec(c, Case{Kind: "atomic", T: T, Progs: progs(c.Rng, n, ops, gen), Jitter: c.Rng.Uint64()})
+		}
+	}
 	// CompareAndSwap against concurrent Stores of an equal value
 	for i := c.N(40, 400, 400); i > 0; i-- {
 		x := []int{300, 70000, 1 << 40, 7, 0}[c.Rng.Intn(5)]
-		exec(c, Case{Kind: "casprobe", X: x, Iters: c.N(1500, 4000, 4000)})
+		exec(c, Case{Kind: "casprobe", X: x, Iters: c.N(1500, 4000, 4000), T: []string{"", "", "string", "struct"}[c.Rng.Intn(4)]})
+	}
+	// the same probe as a small recorded history that also goes to the model: goroutine 0 stores x and then calls
+	// CompareAndSwap(x,x) (and a CompareAndSwap that must fail, and a Load) while goroutine 1 stores the equal value x.
+	// The register holds x from goroutine 0's Store on, so the outcome is unique; the Coq side requires EVERY
+	// interleaving of the model's steps (both results of the pointer comparison, every retry) to produce it.
+	for i := c.N(200, 3000, 2000); i > 0; i-- {
+		x := []int{300, 70000, 1 << 40, 7, 0}[c.Rng.Intn(5)]
+		p0 := []Op{{K: "S", A: x}}
+		for k := 1 + c.Rng.Intn(3); k > 0; k-- {
+			p0 = append(p0, Op{K: "C", A: x, B: x})
+		}
+		if c.Rng.Bool() {
+			p0 = append(p0[:2:2], append([]Op{{K: "C", A: x + 1, B: x + 2}}, p0[2:]...)...)
+		}
+		if len(p0) < 5 {
+			p0 = append(p0, Op{K: "L"})
+		}
+		var p1 []Op
+		for k := 1 + c.Rng.Intn(4); k > 0; k-- {
+			p1 = append(p1, Op{K: "S", A: x})
+		}
+		exec(c, Case{Kind: "atomic", Single: true, Progs: [][]Op{p0, p1}, Jitter: c.Rng.Uint64()})
 	}
 	// Pool
 	for i := c.N(1500, 20000, 12000); i > 0; i-- {
@@ -291,14 +342,51 @@ func barrier(ready *int32, n int) {
 	}
 }
 
+// A call that does not return is a failure of the case (livelock in the CompareAndSwap loop, deadlock). The limit
+// is wall-clock time and the machine may be heavily loaded (the goroutines of a case spin on a barrier), so it is
+// generous; after the first such failure the remaining cases of that family are skipped (the leaked goroutines
+// keep running), which bounds the time a stuck implementation costs.
+const callTimeout = 60 * time.Second
+
+var stuck = map[string]bool{} // "atomic" / "pool"
+
+func family(kind string) string {
+	if kind == "pool" || kind == "poolbulk" {
+		return "pool"
+	}
+	return "atomic"
+}
+
 func exec(c *core.Ctx, cs Case) {
+	if stuck[family(cs.Kind)] {
+		c.Count("skipped_after_stuck_call")
+		return
+	}
 	c.Begin(cs)
 	c.Count("kind_" + cs.Kind)
 	switch cs.Kind {
 	case "atomic":
-		execAtomic(c, cs)
+		switch cs.T {
+		case "":
+			execAtomic(c, cs, intCodec)
+		case "string":
+			c.Count("atomic_T_string")
+			execAtomic(c, cs, stringCodec)
+		case "struct":
+			c.Count("atomic_T_struct")
+			execAtomic(c, cs, structCodec)
+		}
 	case "casprobe":
-		execProbe(c, cs)
+		switch cs.T {
+		case "":
+			execProbe(c, cs, intCodec)
+		case "string":
+			c.Count("casprobe_T_string")
+			execProbe(c, cs, stringCodec)
+		case "struct":
+			c.Count("casprobe_T_struct")
+			execProbe(c, cs, structCodec)
+		}
 	case "pool":
 		execPool(c, cs)
 	case "poolbulk":
@@ -339,7 +427,53 @@ func (r rec) String() string {
 	return fmt.Sprintf("g%d CAS(%d,%d)=%v", r.t, r.op.A, r.op.B, r.ok)
 }
 
-func execAtomic(c *core.Ctx, cs Case) {
+// codec maps the int values of a program to values of the instantiation type T and back. enc allocates
+// (equal values of a multi-word T are different objects with equal contents, as Go's == compares them);
+// dec reports whether the value is one enc could have made (a torn multi-word value is not).
+type codec[T comparable] struct {
+	name string
+	emit bool // int only: the case also goes to the Coq model
+	enc  func(int) T
+	dec  func(T) (int, bool)
+}
+
+type small struct {
+	A int64
+	S string
+}
+
+var intCodec = codec[int]{name: "int", emit: true, enc: func(n int) int { return n }, dec: func(n int) (int, bool) { return n, true }}
+
+var stringCodec = codec[string]{name: "string",
+	enc: func(n int) string {
+		if n == 0 {
+			return "" // the zero value
+		}
+		return string(append([]byte("v"), strconv.Itoa(n)...)) // built at run time: a new object every time
+	},
+	dec: func(s string) (int, bool) {
+		if s == "" {
+			return 0, true
+		}
+		n, err := strconv.Atoi(strings.TrimPrefix(s, "v"))
+		return n, err == nil && strings.HasPrefix(s, "v") && n != 0
+	}}
+
+var structCodec = codec[small]{name: "struct",
+	enc: func(n int) small {
+		if n == 0 {
+			return small{}
+		}
+		return small{A: int64(n), S: string(append([]byte("s"), strconv.Itoa(n)...))}
+	},
+	dec: func(v small) (int, bool) {
+		if v == (small{}) {
+			return 0, true
+		}
+		return int(v.A), v.A != 0 && v.S == "s"+strconv.Itoa(int(v.A)) // both words belong to the same Store
+	}}
+
+func execAtomic[T comparable](c *core.Ctx, cs Case, cd codec[T]) {
 	n := len(cs.Progs)
 	total := 0
 	for _, p := range cs.Progs {
@@ -353,9 +487,10 @@ func execAtomic(c *core.Ctx, cs Case) {
 	} else {
 		c.Count("atomic_concurrent")
 	}
-	var v sync2.AtomicValue[int]
+	var v sync2.AtomicValue[T]
 	var clock int64
 	recs := make([][]rec, n)
+	var torn int32
 	var wg sync.WaitGroup
 	var ready int32
 	panicked := ""
@@ -373,20 +508,28 @@ func execAtomic(c *core.Ctx, cs Case) {
 					}
 				}
 				r := rec{t: t, op: o}
+				x, y := cd.enc(o.A), cd.enc(o.B) // allocated before the call is stamped
+				var out T
 				k := core.Try(func() {
 					r.inv = atomic.AddInt64(&clock, 1)
 					switch o.K {
 					case "L":
-						r.val = v.Load()
+						out = v.Load()
 					case "S":
-						v.Store(o.A)
+						v.Store(x)
 					case "W":
-						r.val = v.Swap(o.A)
+						out = v.Swap(x)
 					case "C":
-						r.ok = v.CompareAndSwap(o.A, o.B)
+						r.ok = v.CompareAndSwap(x, y)
 					}
 					r.ret = atomic.AddInt64(&clock, 1)
 				})
+				if k == "" && (o.K == "L" || o.K == "W") {
+					var good bool
+					if r.val, good = cd.dec(out); !good {
+						atomic.AddInt32(&torn, 1)
+					}
+				}
 				if k != "" {
 					pmu.Lock()
 					panicked = k + " in " + r.String()
@@ -401,12 +544,17 @@ func execAtomic(c *core.Ctx, cs Case) {
 	go func() { wg.Wait(); close(done) }()
 	select {
 	case <-done:
-	case <-time.After(5 * time.Second):
-		c.Fail("AtomicValue call did not return", "5s")
+	case <-time.After(callTimeout):
+		c.Fail("AtomicValue call did not return", callTimeout.String())
+		stuck["atomic"] = true
 		return
 	}
 	if panicked != "" {
 		c.Fail("AtomicValue call panicked", panicked)
+		return
+	}
+	if torn > 0 {
+		c.Fail("AtomicValue["+cd.name+"] returned a value that no single Store wrote (torn or foreign value)", fmt.Sprintf("%d results", torn))
 		return
 	}
 	// direct oracle: the history must be linearizable to one atomic register
@@ -433,20 +581,27 @@ func execAtomic(c *core.Ctx, cs Case) {
 		if msg := sequentialOracle(all); msg != "" {
 			c.Fail(msg, histString(all))
 		}
+	} else if len(all) > maxLin {
+		c.Unobservable("AtomicValue linearizability oracle: history longer than the checker's limit") // never generated by run()
 	} else if !linearizable(all) {
-		c.Fail("AtomicValue history is not linearizable to an atomic register", histString(all))
+		c.Fail("AtomicValue["+cd.name+"] history is not linearizable to an atomic register", histString(all))
 	}
-	// model: small histories only (the Coq side searches schedules without memoisation)
-	if n <= 3 && total <= 9 || n == 1 && total <= 40 {
+	if cs.Single {
+		c.Count("atomic_single_outcome_probe")
+		c.Nontrivial()
+	}
+	// model: small histories only (the Coq side searches schedules without memoisation). Every call carries its
+	// invocation and response ranks on the global clock: the Coq search respects the real-time order too.
+	if cd.emit && (n <= 3 && total <= 9 || n == 1 && total <= 40) {
 		ths := make([]string, n)
 		for t, rs := range recs {
 			calls := make([]string, len(rs))
 			for i, r := range rs {
-				calls[i] = core.Pair(coqOp(r.op), coqRes(r))
+				calls[i] = core.Pair(core.Pair(coqOp(r.op), coqRes(r)), core.Pair(core.Z64(r.inv), core.Z64(r.ret)))
 			}
 			ths[t] = core.List(calls)
 		}
-		c.Emit("CaseAtomic " + core.List(ths))
+		c.Emit("CaseAtomic " + core.Bool(cs.Single) + " " + core.List(ths))
 	}
 }
 
@@ -500,9 +655,13 @@ func (g reg) apply(r rec) (reg, bool) {
 		return reg{true, r.op.A}, r.val == cur
 	}
 	// CompareAndSwap: once a value has been stored, succeeds exactly when current == old.
-	// Before the first Store the property leaves it open; atomic.Value reports false (old is a non-nil interface).
+	// Before the first Store the property leaves it open (atomic.Value, and so the present code, reports false
+	// because old is a non-nil interface): either answer is accepted, true meaning that new was stored.
 	if !g.set {
-		return g, !r.ok
+		if r.ok {
+			return reg{true, r.op.B}, true
+		}
+		return g, true
 	}
 	if g.val == r.op.A {
 		return reg{true, r.op.B}, r.ok
@@ -523,10 +682,9 @@ func sequentialOracle(all []rec) string {
 }
 
 // linearizable: Wing-Gong search with memoisation on (set of linearized calls, register).
+const maxLin = 62 // calls per history the bitmask of the checker can hold
+
 func linearizable(all []rec) bool {
-	if len(all) > 62 {
-		return true
-	}
 	type key struct {
 		mask uint64
 		g    reg
@@ -563,10 +721,11 @@ func linearizable(all []rec) bool {
 	return rec(0, reg{})
 }
 
-func execProbe(c *core.Ctx, cs Case) {
+func execProbe[T comparable](c *core.Ctx, cs Case, cd codec[T]) {
 	c.Nontrivial()
-	var v sync2.AtomicValue[int]
-	x := cs.X + len(cs.Kind) - len("casprobe") // not a compile-time constant: boxed at run time
+	var v sync2.AtomicValue[T]
+	xi := cs.X + len(cs.Kind) - len("casprobe") // not a compile-time constant: boxed at run time
+	x, x1, x2 := cd.enc(xi), cd.enc(xi+1), cd.enc(xi+2)
 	v.Store(x)
 	var stop int32
 	var wg sync.WaitGroup
@@ -574,7 +733,7 @@ func execProbe(c *core.Ctx, cs Case) {
 	go func() {
 		defer wg.Done()
 		for atomic.LoadInt32(&stop) == 0 {
-			v.Store(x)
+			v.Store(cd.enc(xi)) // an equal value in a new box
 		}
 	}()
 	spurious, wrong := 0, 0
@@ -583,7 +742,7 @@ func execProbe(c *core.Ctx, cs Case) {
 		if !v.CompareAndSwap(x, x) {
 			spurious++
 		}
-		if i%64 == 0 && v.CompareAndSwap(x+1, x+2) {
+		if i%64 == 0 && v.CompareAndSwap(x1, x2) {
 			wrong++
 		}
 	}
@@ -591,10 +750,10 @@ func execProbe(c *core.Ctx, cs Case) {
 	wg.Wait()
 	if spurious > 0 {
 		c.Fail("AtomicValue.CompareAndSwap spurious failure (concurrent Store of an equal value)",
-			fmt.Sprintf("register held %d throughout while another goroutine stored %d; %d of %d CompareAndSwap(%d,%d) calls returned false", x, x, spurious, cs.Iters, x, x))
+			fmt.Sprintf("AtomicValue[%s]: register held %v throughout while another goroutine stored %v; %d of %d CompareAndSwap(%v,%v) calls returned false", cd.name, x, x, spurious, cs.Iters, x, x))
 	}
 	if wrong > 0 || v.Load() != x {
-		c.Fail("AtomicValue.CompareAndSwap succeeded although the current value differs from old", fmt.Sprintf("%d times; final value %d", wrong, v.Load()))
+		c.Fail("AtomicValue.CompareAndSwap succeeded although the current value differs from old", fmt.Sprintf("%d times; final value %v", wrong, v.Load()))
 	}
 }
 
@@ -721,8 +880,9 @@ func execPool(c *core.Ctx, cs Case) {
 	go func() { wg.Wait(); close(done) }()
 	select {
 	case <-done:
-	case <-time.After(5 * time.Second):
-		c.Fail("Pool call did not return", "5s")
+	case <-time.After(callTimeout):
+		c.Fail("Pool call did not return", callTimeout.String())
+		stuck["pool"] = true
 		return
 	}
 	for _, f := range fails {
